@@ -62,6 +62,8 @@ class Repo:
                         modrel = node.module.replace(".", "/") + ".py"
                         for a in node.names:
                             m.imports[a.asname or a.name] = (modrel, a.name)
+                    elif isinstance(node, ast.Assign) and len(node.targets) == 1 and isinstance(node.targets[0], ast.Name) and isinstance(node.value, ast.Constant) and isinstance(node.value.value, int):
+                        m.consts[node.targets[0].id] = node.value.value  # module-level integer constants (PATH_START = 0, ...)
                     elif isinstance(node, ast.FunctionDef):
                         self._add(m, node, None)
                     elif isinstance(node, ast.ClassDef):
